@@ -321,7 +321,7 @@ def run_struct(spec, ctx):
     else:
         sp = spec['spec']
         try:
-            B = R.build(sp, variant={'hook': (lambda pt: None)})
+            B = R.build(sp)
         except Exception as e:
             ctx.count('rsome_raises:' + type(e).__name__)
             return {'status': 'skip', 'reason': 'rsome raised: ' + type(e).__name__}
